@@ -87,6 +87,10 @@ def lookup {α} (l : List (String × α)) (k : String) : Option α :=
   | [] => none
   | (k', v) :: r => if k' == k then some v else lookup r k
 
+@[simp] theorem lookup_nil {α} (k : String) : lookup ([] : List (String × α)) k = none := rfl
+@[simp] theorem lookup_cons {α} (k' : String) (v : α) (r : List (String × α)) (k : String) :
+    lookup ((k', v) :: r) k = if k' == k then some v else lookup r k := rfl
+
 def lookupVar (sc : Scope) (x : String) : String := (lookup sc x).getD ""
 
 /-! ### `_find_inheritance_nodes` -/
@@ -217,25 +221,28 @@ decreasing_by exact unseen_lt ld seen p t' (by simpa using _hseen) _hfound
 
 /-! ### rendering -/
 
+/-- `context.tag_namespace["extends"].get(name)`; a missing entry and an empty stack are both "not block_stack" -/
+def stackOf (st : Stacks) (name : String) : List Def := (lookup st name).getD []
+
 mutual
-def renderItem (lim : Nat) (st : Stacks) (depth : Nat) (outer : Option Scope) (parents : List Def) (sc : Scope) :
+def renderItem (lim : Nat) (res : String → List Def) (depth : Nat) (outer : Option Scope) (parents : List Def) (sc : Scope) :
     Item → Except Err String
   | .text s => .ok s
   | .var x => .ok (lookupVar sc x)
   | .super =>
     match parents with
     | [] => .ok ""                                                  -- `env.undefined("super")`
-    | p :: ps => renderItems lim st depth none ps (outer.getD sc) p.body    -- parent body, in the drop's context
-  | .loop v n body => renderLoop lim st depth outer parents sc v n body n
+    | p :: ps => renderItems lim res depth none ps (outer.getD sc) p.body    -- parent body, in the drop's context
+  | .loop v n body => renderLoop lim res depth outer parents sc v n body n
   | .block name req body =>
-    match lookup st name with
-    | some (d :: ds) =>
+    match res name with                                             -- `tag_namespace["extends"].get(name)`
+    | d :: ds =>
       if d.required then .error .requiredBlock
       else if h : depth > lim then .error .contextDepth             -- `context.copy`
-      else renderItems lim st (depth + 1) (some sc) ds sc d.body
-    | _ =>                                                          -- `if not block_stack`
+      else renderItems lim res (depth + 1) (some sc) ds sc d.body
+    | [] =>                                                         -- `if not block_stack`
       if req then .error .requiredBlock
-      else renderItems lim st depth none [] sc body
+      else renderItems lim res depth none [] sc body
 termination_by i => (lim + 1 - depth, sizeOf i + sizeOf parents)
 decreasing_by
   all_goals simp_wf
@@ -247,14 +254,14 @@ decreasing_by
        have hp : sizeOf p.body < sizeOf p := by cases p; simp only [Def.mk.sizeOf_spec]; omega
        omega)
 
-def renderItems (lim : Nat) (st : Stacks) (depth : Nat) (outer : Option Scope) (parents : List Def) (sc : Scope) :
+def renderItems (lim : Nat) (res : String → List Def) (depth : Nat) (outer : Option Scope) (parents : List Def) (sc : Scope) :
     List Item → Except Err String
   | [] => .ok ""
   | i :: is =>
-    match renderItem lim st depth outer parents sc i with
+    match renderItem lim res depth outer parents sc i with
     | .error e => .error e
     | .ok a =>
-      match renderItems lim st depth outer parents sc is with
+      match renderItems lim res depth outer parents sc is with
       | .error e => .error e
       | .ok b => .ok (a ++ b)
 termination_by is => (lim + 1 - depth, sizeOf is + sizeOf parents)
@@ -263,14 +270,14 @@ decreasing_by
   all_goals (apply Prod.Lex.right; omega)
 
 /-- iterations `n - k + 1 .. n` of `{% for v in (1..n) %}` -/
-def renderLoop (lim : Nat) (st : Stacks) (depth : Nat) (outer : Option Scope) (parents : List Def) (sc : Scope)
+def renderLoop (lim : Nat) (res : String → List Def) (depth : Nat) (outer : Option Scope) (parents : List Def) (sc : Scope)
     (v : String) (n : Nat) (body : List Item) : Nat → Except Err String
   | 0 => .ok ""
   | k + 1 =>
-    match renderItems lim st depth outer parents ((v, toString (n - k)) :: sc) body with
+    match renderItems lim res depth outer parents ((v, toString (n - k)) :: sc) body with
     | .error e => .error e
     | .ok a =>
-      match renderLoop lim st depth outer parents sc v n body k with
+      match renderLoop lim res depth outer parents sc v n body k with
       | .error e => .error e
       | .ok b => .ok (a ++ b)
 termination_by k => (lim + 1 - depth, sizeOf body + sizeOf parents + k)
@@ -285,7 +292,7 @@ starting from this template, renders the base template and stops the render. -/
 def renderTops (lim : Nat) (ld : Loader) (self : Template) (data : Scope) : List Top → Except Err String
   | [] => .ok ""
   | .node i :: ts =>
-    match renderItem lim [] 0 none [] data i with
+    match renderItem lim (stackOf []) 0 none [] data i with
     | .error e => .error e
     | .ok a =>
       match renderTops lim ld self data ts with
@@ -294,7 +301,7 @@ def renderTops (lim : Nat) (ld : Loader) (self : Template) (data : Scope) : List
   | .ext _ :: _ =>
     match buildFrom ld [] [] self with
     | .error e => .error e
-    | .ok (st, base) => renderItems lim st 0 none [] data base.nodes
+    | .ok (st, base) => renderItems lim (stackOf st) 0 none [] data base.nodes
 
 /-- `env.get_template(name).render(**data)` -/
 def renderTemplate (lim : Nat) (ld : Loader) (name : String) (data : Scope) : Except Err String :=
